@@ -8,6 +8,8 @@ from harness.framework import Suite
 
 PID = "C14"
 TRANSLATE = True
+TRANSLATE_ALGO = ["AlgoTraverse", "AlgoTravFront", "AlgoVolume"]     # harness/algo_specs/14_voltrav.py: _get_volume_frustum_cone with its `leave` closure
+DRIVER_FILES = ["SwcVerif/Model/AlgoRunVolume.lean"]
 LEAN_MODS = ["SwcVerif.Props.C14"]
 THEOREMS = [
     "C14.tree_volume_eq_sum", "C14.level1_every_tree", "C14.level2_every_tree", "C14.level3_every_tree", "C14.level5_every_tree",
@@ -114,6 +116,26 @@ def node_terms(t):
     return rows
 
 
+def prim_terms(t):
+    """the primitive volumes, computed with the library's primitives, one per row: the node's sphere; the frustum to its parent; the
+    parent's sphere ∩ that frustum; its own sphere ∩ that frustum (0 for the root)"""
+    from swcgeom.utils import VolFrustumCone, VolSphere
+
+    xyz = np.array(t["xyz"], dtype=np.float32)
+    r = np.array(t["r"], dtype=np.float32)
+    sph, fr, pc, cc = [], [], [], []
+    for i, p in enumerate(t["pids"]):
+        s = VolSphere(xyz[i], r[i])
+        sph.append(float(s.get_volume()))
+        if p < 0:
+            fr.append(0.0); pc.append(0.0); cc.append(0.0)
+            continue
+        ps = VolSphere(xyz[p], r[p])
+        f = VolFrustumCone(xyz[p], r[p], s.center, s.radius)
+        fr.append(float(f.get_volume())); pc.append(float(ps.intersect(f).get_volume())); cc.append(float(s.intersect(f).get_volume()))
+    return {"sph": sph, "fr": fr, "pc": pc, "cc": cc}
+
+
 def fe_order(case):
     """the analytic levels of the case in the order in which one extractor is asked for them (derived from the case, so that it replays)"""
     lv = [a for a in case["levels"] if a <= 4 or case["collinear"]]
@@ -213,6 +235,7 @@ class TreeVol(Suite):
         res = {"vol": {str(a): float(get_volume(t, accuracy=a)) for a in case["levels"]}}
         if case["collinear"]:
             res["terms"] = node_terms(case["tree"])
+            res["prims"] = prim_terms(case["tree"])
         # the front end `extract_feature(tree).get('volume', accuracy=…)`: ONE extractor object asked a sequence of requests (levels in a
         # case-dependent order, the three calling forms) must answer each request with the volume at the requested level
         order = fe_order(case)
@@ -241,6 +264,12 @@ class TreeVol(Suite):
             if a >= 5 and case["class"] == "arms":
                 continue  # Monte-Carlo pair term not reproduced by the model line
             out.append((f"voltree acc={a} ids={gen.ints(range(case['tree']['n']))} pids={gen.ints(case['tree']['pids'])} nodes={nodes}", {"approx": [res["vol"][str(a)]], "rtol": 2e-5, "atol": 1e-5 * min(1.0, case.get("unit", 1.0)) ** 3}))
+            if "prims" in res:
+                # the function GENERATED from _get_volume_frustum_cone on this run (closure, child results, gating, accumulation, through the
+                # generated Tree.traverse), fed the primitive volumes of the library
+                pr = " ".join(f"{k}={','.join(repr(x) for x in res['prims'][k])}" for k in ("sph", "fr", "pc", "cc"))
+                out.append((f"gvoltree acc={a} ids={gen.ints(range(case['tree']['n']))} pids={gen.ints(case['tree']['pids'])} {pr}",
+                            {"approx": [res["vol"][str(a)]], "rtol": 2e-5, "atol": 1e-5 * min(1.0, case.get("unit", 1.0)) ** 3}))
         return out
 
     def oracle(self, case, res):
